@@ -77,7 +77,7 @@ Definition pow_ok (a b : expr) : bool :=
   else true.
 
 Definition add_term_ok (k : expr) (v : number) : bool :=
-  if num_is v 1 then pos_lt k SP_Add 13
+  if num_is v 1 then pos_lt k SP_Add 12
   else if num_is v (-1) then pos_lt k SP_Mul 13 && ((precedence k <? SP_Mul) || negb (lmin k))
   else pos_lt k SP_Mul 13.
 
